@@ -42,6 +42,12 @@ Next ==
   \/ Resume
   \/ Tick
   \/ ChildExit(1, 3)
+  \* the child lets go of the exit handle, then ends while a descendant keeps its streams: the exit status can be collected, and
+  \* the streams go on exactly as before (a nonblocking read of an empty stream still does not wait, it is not at its end either)
+  \* (bounded: it lets go of the exit handle first thing or not at all)
+  \/ (Mode = "io" /\ ncalls = 2 /\ hist[Len(hist)].e = "ret" /\ hist[Len(hist) - 1].e = "call" /\ hist[Len(hist) - 1].fn = "start"
+        /\ hist[Len(hist) - 1].o.nb = 1 /\ hist[Len(hist) - 1].o.input = -1 /\ hist[Len(hist) - 1].o.dl = 0 /\ hist[Len(hist) - 1].o.rerr = R_PIPE
+        /\ ChildCloseX(1)) \/ (Mode = "io" /\ ~ch[1].xo /\ ChildExitG(1, 3))
   \/ \E n \in {1, 2} : ChildOut(1, n)
   \/ \E n \in {1, 2} : ChildErr(1, n)
   \/ \E f \in {0, 1, 2} : ChildClose(1, f)
